@@ -125,10 +125,25 @@ hence the conclusion is `start ≤ end`, not `start < end`.) -/
 example : let tr : List (Length × Length) := [(⟨2,⟨0,2⟩⟩, ⟨11,⟨0,11⟩⟩), (⟨11,⟨0,11⟩⟩, ⟨6,⟨0,6⟩⟩), (⟨6,⟨0,6⟩⟩, ⟨11,⟨0,11⟩⟩)]
     traceAdmissible [] tr = true ∧ (foldAdd [] tr).reverse = [⟨⟨0,2⟩,⟨0,11⟩,2,11⟩] := by decide
 
+/-- `spans_contiguous`: for ALL tree pairs, alias tables and difference lists the spans of the walk are
+contiguous from `loopStart` on — each iteration starts where the previous one ended. -/
+theorem spans_contiguous (al : AliasTable) (fixed : Bool) (old new : Tree) (diffs : List TSRange) :
+    spansChain (loopStart old new) (changedRanges al fixed old new diffs).spans = true := by
+  unfold changedRanges changedTrace
+  simp only
+  refine (mainLoop_chain al fixed diffs _ (loopStart old new) _ _ (by simp [spansChain]) ?_).1
+  simp only [List.reverse_nil, spansEnd, loopStart]
+  split <;> rename_i h
+  · simp only; omega
+  · split <;> rename_i h2
+    · simp only; omega
+    · simp only; omega
+
 /-- `changed_covers_partial` — the coverage clause for the walk, for ALL tree pairs, alias tables and
 difference lists, and for arbitrary per-byte stack functions `so`/`sn` (the judge's scope stacks):
-IF (a) every call to `ts_range_array_add` grows the array (`traceGrow`), (b) the iterations' spans
-tile the bytes from `lo` on without going backwards (`spansTile`), and (c) **MatchSound / PassSound**:
+IF (a) every call to `ts_range_array_add` grows the array (`traceGrow`), (b) no iteration's span goes
+backwards (`spansMono`; that the spans are CONTIGUOUS from `loopStart` on is proved for all tree pairs,
+`spans_contiguous`), and (c) **MatchSound / PassSound**:
 on every span the walk did NOT hand to `add` — `compare` answered *Matches* (label 1) or the span was
 passed over without a possible descent (label 2) — the two stacks agree at every byte,
 THEN every byte between `lo` and the end of the tiling whose stacks differ lies in a reported range,
@@ -138,12 +153,12 @@ parser determinism enters (DESIGN §7: MatchSound is a hypothesis, discharged pe
 OPEN `changed_covers`: (a), (b) for all tree pairs (they fail on the rare "roots start at different
 offsets" traces, see below) and (c) from a model of the parser. -/
 theorem changed_covers_partial {α : Type} (al : AliasTable) (fixed : Bool) (old new : Tree)
-    (diffs : List TSRange) (so sn : Nat → α) (lo : Nat)
+    (diffs : List TSRange) (so sn : Nat → α)
     (hgrow : traceGrow [] ((changedRanges al fixed old new diffs).main ++ (changedRanges al fixed old new diffs).post) = true)
-    (htile : spansTile lo (changedRanges al fixed old new diffs).spans = true)
+    (hmono : spansMono (changedRanges al fixed old new diffs).spans = true)
     (hsound : ∀ sp ∈ (changedRanges al fixed old new diffs).spans, sp.2.2 ≠ 0 →
       ∀ p, sp.1.bytes ≤ p → p < sp.2.1.bytes → so p = sn p) :
-    (∀ p, lo ≤ p → p < spansEnd lo (changedRanges al fixed old new diffs).spans → so p ≠ sn p →
+    (∀ p, loopStart old new ≤ p → p < spansEnd (loopStart old new) (changedRanges al fixed old new diffs).spans → so p ≠ sn p →
       mem (changedRanges al fixed old new diffs).ranges p) ∧
     (∀ c ∈ (changedRanges al fixed old new diffs).pre ++ (changedRanges al fixed old new diffs).post,
       ∀ p, c.1.bytes ≤ p → p < c.2.bytes → mem (changedRanges al fixed old new diffs).ranges p) := by
@@ -153,9 +168,11 @@ theorem changed_covers_partial {α : Type} (al : AliasTable) (fixed : Bool) (old
   have hmain : (changedRanges al fixed old new diffs).main =
       (changedRanges al fixed old new diffs).pre ++ callsOf (changedRanges al fixed old new diffs).spans := rfl
   have hg := foldAdd_grow _ [] hgrow
+  have htile : spansTile (loopStart old new) (changedRanges al fixed old new diffs).spans = true := by
+    rw [tile_iff, spans_contiguous, hmono]; rfl
   refine ⟨?_, ?_⟩
   · intro p h1 h2 hne
-    obtain ⟨sp, hsp, h3, h4⟩ := tile_find _ lo p htile h1 h2
+    obtain ⟨sp, hsp, h3, h4⟩ := tile_find _ (loopStart old new) p htile h1 h2
     by_cases hl : sp.2.2 = 0
     · rw [hr, mem_reverse]
       refine (hg p).2 (sp.1, sp.2.1) ?_ h3 h4
